@@ -34,6 +34,10 @@ Record htfc := {
   h_trees : list (list (Z * Z * Z))  (* table->subtrees[i]->tree[j] = (symbol, children[0], children[1]) *)
 }.
 
+(* [Base.nthN] behind a bounds test: the same function (HTFCProofs.rdN_nthN), but an index far outside
+   the array (a wrapped-around uint) is never converted to a unary number when the model is executed *)
+Definition rdN {A} (l : list A) (i : N) : option A := if i <? lenN l then nthN l i else None.
+
 Definition wu16 (x : N) : N := x mod 2 ^ 16.
 Definition wu32 (x : N) : N := x mod 2 ^ 32.
 Definition wsub16 (a b : N) : N := (a + 2 ^ 16 - b mod 2 ^ 16) mod 2 ^ 16.   (* ushort a -= b *)
@@ -76,7 +80,7 @@ Fixpoint buf_copy_f (fuel : nat) (n : N) (buf : list N) (cap src dst : N) : opti
   if n =? 0 then Some buf
   else match fuel with
        | O => None
-       | S f => match nthN buf src with
+       | S f => match rdN buf src with
                 | None => None
                 | Some v => match buf_write buf cap dst v with
                             | None => None
@@ -101,7 +105,7 @@ Record ast := { a_buf : list N; a_len : N; a_adv : N; a_ext : N }.
 
 (* c_chunk = (c_chunk << 8) | *b_ptr; c_valid += 8; b_ptr++; b_remain--; *)
 Definition load_byte (text : list N) (b : bst) : option bst :=
-  match nthN text (b_ptr b) with
+  match rdN text (b_ptr b) with
   | None => None
   | Some byte =>
       Some {| c_chunk := wu32 (N.lor (N.shiftl (c_chunk b) 8) byte); c_valid := wu16 (c_valid b + 8);
@@ -157,7 +161,7 @@ Fixpoint tree_descend (fuel : nat) (text : list N) (tree : list (Z * Z * Z)) (no
             let v := wsub16 (c_valid b1) 1 in
             let child := if N.testbit (c_chunk b1) v then c1 else c0 in
             if (child <? 0)%Z then None
-            else match nthN tree (Z.to_N child) with
+            else match rdN tree (Z.to_N child) with
                  | None => None
                  | Some node' =>
                      tree_descend f text tree node'
@@ -180,7 +184,7 @@ Definition chunk_lookup (d : htfc) (b : bst) : option (centry * bst) :=
   else
     let index := N.land (N.shiftr (c_chunk b) (c_valid b - k)) (hmask k) in
     let position := assoc0 (h_tab d) index in
-    match nthN (h_stream d) position with
+    match rdN (h_stream d) position with
     | None => None
     | Some code =>
         match ventry code with
@@ -199,10 +203,10 @@ Definition chunk_lookup (d : htfc) (b : bst) : option (centry * bst) :=
                 match vb_decode (skipN (position + 1) (h_stream d)) with
                 | None => None
                 | Some (idTree, _) =>
-                    match nthN (h_trees d) idTree with
+                    match rdN (h_trees d) idTree with
                     | None => None
                     | Some tree =>
-                        match nthN tree 0 with
+                        match rdN tree 0 with
                         | None => None
                         | Some root =>
                             match tree_descend (S (length tree)) (h_text d) tree root
@@ -383,7 +387,7 @@ Fixpoint dh_loop (fuel : nat) (d : htfc) (cap : N) (b : bst) (a : ast) (plen pva
 Fixpoint sum_bits (cws : list cw) (l : list N) : option N :=
   match l with
   | [] => Some 0
-  | c :: r => match nthN cws c, sum_bits cws r with
+  | c :: r => match rdN cws c, sum_bits cws r with
               | Some w, Some s => Some (snd w + s)
               | _, _ => None
               end
@@ -393,7 +397,7 @@ Definition str_cap (d : htfc) : N := 4 * h_maxlength d + h_k d.     (* new uchar
 
 (* ChunkScan StringDictionaryHTFC::decodeHeader(size_t idbucket) *)
 Definition decode_header (d : htfc) (idbucket : N) : option (bst * ast) :=
-  match nthN (h_bl d) idbucket with
+  match rdN (h_bl d) idbucket with
   | None => None
   | Some ptr =>
       let cap := str_cap d in
@@ -419,7 +423,7 @@ Definition decode_header (d : htfc) (idbucket : N) : option (bst * ast) :=
 (* void StringDictionaryHTFC::resetScan(ChunkScan *c, size_t idbucket) *)
 Definition reset_scan (d : htfc) (idbucket : N) (st : bst * ast) : option (bst * ast) :=
   let '(b, a) := st in
-  match nthN (h_bl d) (idbucket + 1) with
+  match rdN (h_bl d) (idbucket + 1) with
   | None => None
   | Some nxt =>
       Some ({| c_chunk := 0; c_valid := 0; b_ptr := b_ptr b;
@@ -500,7 +504,7 @@ Fixpoint memcmp_avail (a b : list N) : option comparison :=
 
 (* getHeader(idbucket) followed by memcmp(header, str, strLen) *)
 Definition hdr_memcmp (d : htfc) (idbucket : N) (enc : list N) : option comparison :=
-  match nthN (h_bl d) idbucket with
+  match rdN (h_bl d) idbucket with
   | None => None
   | Some off => if off <=? lenN (h_text d) then memcmp_avail (skipN off (h_text d)) enc else None
   end.
@@ -603,7 +607,7 @@ Fixpoint mask_last (l : list N) (n : nat) (m : N) : list N :=   (* l[n] &= m whe
   end.
 
 Definition hdr_memcmp_masked (d : htfc) (idbucket : N) (enc : list N) (offset : N) : option comparison :=
-  match nthN (h_bl d) idbucket with
+  match rdN (h_bl d) idbucket with
   | None => None
   | Some off =>
       if off <=? lenN (h_text d) then
@@ -802,7 +806,7 @@ Definition bucket_chk (d : htfc) (k : N) (ss : list str) : bool :=
   match ss with
   | [] => false
   | h :: r =>
-      match nthN (h_bl d) k, pack_string (h_cw d) (h ++ [0]) with
+      match rdN (h_bl d) k, pack_string (h_cw d) (h ++ [0]) with
       | Some off, Some (enc, _) =>
           (off <=? lenN (h_text d)) && hprefix_eqb enc (skipN off (h_text d)) &&
           match decode_header d k with
